@@ -11,7 +11,7 @@ import common as C, store as S
 
 LEVEL = "model_checking"
 REPS = [1, 2, 3, 4, 5, 7, 8, 9, 15, 16, 17, 31, 32]
-CHECKS = ["C17_SuggestEqualsSpec", "C17_SpecGuarantees", "C17_AddFailed", "C17_RangeIsSuggested", "C17_Progress", "C17_Shallow", "C17_RewriteBound"]
+CHECKS = ["C17_SuggestEqualsSpec", "C17_SpecGuarantees", "C17_AddFailed", "C17_RangeIsSuggested", "C17_Progress", "C17_Shallow", "C17_RewriteBound", "C17_StaleAutoCompact"]
 
 
 def mc_cfg(mode, maxlen=0, n=0, unit=1, a=1, b=0):
@@ -46,7 +46,7 @@ def workloads(rng, tier):
             w = {"id": "wl%d" % i, "n": n, "per": rng.choice([1, 1, 2, 3, 8]), "namelen": rng.choice([0, 0, 10, 60]), "kind": kind,
                  "fresh": rng.random() < 0.6 or kind == "delete", "logs": rng.random() < 0.3 and kind != "delete", "split": rng.random() < 0.75,
                  "hash": rng.choice(["sha1", "s256"]), "blocksize": rng.choice([0, 0, 256, 1024]), "unaligned": rng.random() < 0.3,
-                 "restart": rng.choice([0, 1, 16]), "every": 1 if n <= 300 else 7}
+                 "restart": rng.choice([0, 1, 16]), "every": 1 if n <= 300 else 7, "observer": True}
             if w["blocksize"] and w["namelen"] > 10:
                 w["blocksize"] = 1024
             ws.append(w)
